@@ -1,12 +1,13 @@
 package javascript
 
 //verif:dir internal/util/javascript
-//verif:bound stylesheet text: any bytes, len<=4 (quick) / <=6 (thorough)
+//verif:bound stylesheet text: any bytes, len<=4 (quick) / <=6 (thorough); and over the 5-byte alphabet {" \\ space / *} that drives the string/comment state machine, len<=9 (quick) / <=11 (thorough)
 //verif:outside stylesheets longer than the bound; backslash escapes outside string literals; unterminated comments/strings; at-rule preludes' whitespace; the CSS grammar above token level (values, at-rule semantics)
 //verif:summarize github.com/tucats/ego/internal/util/javascript.cssIsWS
 //verif:summarize github.com/tucats/ego/internal/util/javascript.cssIsDelim
 //verif:summarize github.com/tucats/ego/internal/util/javascript.refIsWS
 //verif:summarize github.com/tucats/ego/internal/util/javascript.refIsName
+//verif:summarize github.com/tucats/ego/internal/util/javascript.c34StringAlphabet
 
 import (
 	sym "github.com/tucats/ego/internal/zzverif/sym"
@@ -199,6 +200,40 @@ func selectorEnd(t refTok) bool {
 func selectorStart(t refTok) bool {
 	return t.kind == 'p' && (t.text == "." || t.text == "#" || t.text == "[" || t.text == ":" || t.text == "*")
 }
+
+func c34StringAlphabet(c byte) bool {
+	return c == '"' || c == '\\' || c == ' ' || c == '/' || c == '*'
+}
+
+// VerifC34_stringsAndEscapes: longer inputs over the bytes that drive the
+// string/comment state machine (quote, backslash, blank, / and *).
+func VerifC34_stringsAndEscapes() {
+	n := 9
+	if sym.Thorough() {
+		n = 11
+	}
+	sym.Bound("sourceBytesSmallAlphabet", n)
+	src := sym.Bytes("css", n)
+	for i := range src {
+		sym.Assume(c34StringAlphabet(src[i]))
+	}
+	sym.Assume(c34WellFormedStrings(src))
+	in := append([]byte(nil), src...)
+	out := MinifyCSS(src)
+	sym.Reach("minified")
+	a := dropRedundantSemis(refTokens(in))
+	b := dropRedundantSemis(refTokens(out))
+	if len(a) != len(b) {
+		sym.Fail("MinifyCSS changed the number of CSS tokens")
+	}
+	for i := range a {
+		sym.Assert(a[i].kind == b[i].kind && a[i].text == b[i].text, "MinifyCSS changed a CSS token")
+	}
+}
+
+// c34WellFormedStrings: like wellFormed, but backslashes are allowed inside
+// string literals (that is what this harness is about).
+func c34WellFormedStrings(s []byte) bool { return wellFormed(s) }
 
 // commentJoinsWords: two word characters separated only by a comment (no
 // whitespace). Class of known finding C34-comment-between-words.
